@@ -10,7 +10,7 @@ import (
 )
 
 func fmtCfg(r *rand.Rand, maxLevel int) gen.M {
-	return gen.M{"layout": r.Intn(maxLevel + 1), "layoutSeed": r.Intn(1 << 20), "cap": 0, "cert": false, "reduceAt": 0, "restartEvery": 0, "cp": false, "amo": false, "wb": false}
+	return gen.M{"layout": r.Intn(maxLevel + 1), "layoutSeed": r.Intn(1 << 20), "reader": r.Intn(4), "cap": 0, "cert": false, "reduceAt": 0, "restartEvery": 0, "cp": false, "amo": false, "wb": false}
 }
 
 // opbCons: a linear constraint as an OPB file can state it (relations >=, = ; <= is printed negated).
@@ -139,6 +139,7 @@ func init() {
 					c["tm"] = "MaxSatTrace"
 					c["cfg"].(gen.M)["layout"] = r.Intn(2)
 					c["cfg"].(gen.M)["layoutSeed"] = r.Intn(1 << 20)
+					c["cfg"].(gen.M)["reader"] = r.Intn(4)
 					res = append(res, c)
 				}
 			}
@@ -152,6 +153,7 @@ func init() {
 			cov["kind."+kind]++
 			cfg, _ := t["cfg"].(map[string]any)
 			cov["layout."+itoa(n(cfg, "layout"))]++
+			cov["reader."+itoa(n(cfg, "reader"))]++
 			if b(t, "hasObj") {
 				cov["opb.objective"]++
 			}
@@ -167,8 +169,8 @@ func init() {
 			}
 			return len(sub(t, "cons")) >= 2
 		},
-		Rule:    "cases: (a) every well-formed text FormatsGen.tla enumerates (all token strings of length <= 5 / 7 for DIMACS and WCNF over 2 variables: clauses spanning lines, several clauses per line, comment lines, last line without newline; OPB texts built from statements with at most 2 terms), fed byte for byte to the readers and judged by the reference readers of Formats.tla; (b) abstract files (DIMACS n<=8 incl. empty / duplicate-literal / tautological clauses and unused variables; OPB n<=5 with <=4 constraints, coefficients in [-3,3], relations >=, =, trivially true / false constraints, objective with coefficients of either sign; WCNF n<=7 with / without top weight) printed with seeded free layout (spacing, tabs, CRLF, comments, clauses spanning lines or sharing a line, '+' signs) and read by solver.ParseCNF, explain.ParseCNF, solver.ParseOPB, maxsat.ParseWCNF; non-trivial = at least two constraints",
-		Require: []string{"kind.cnf", "kind.opb", "kind.wcnf", "op.parse", "op.eparse", "layout.0", "layout.1", "layout.2", "opb.objective", "text.cnf", "text.opb", "text.wcnf", "text.no-final-newline"},
+		Rule:    "cases: (a) every well-formed text FormatsGen.tla enumerates (all token strings of length <= 5 / 7 for DIMACS and WCNF over 2 variables: clauses spanning lines, several clauses per line, comment lines, last line without newline; OPB texts built from statements with at most 2 terms), fed byte for byte to the readers (delivered at once, one byte per Read, in halves, or with the last data together with io.EOF) and judged by the reference readers of Formats.tla; (b) abstract files (DIMACS n<=8 incl. empty / duplicate-literal / tautological clauses and unused variables; OPB n<=5 with <=4 constraints, coefficients in [-3,3], relations >=, =, trivially true / false constraints, objective with coefficients of either sign; WCNF n<=7 with / without top weight) printed with seeded free layout (spacing, tabs, CRLF, comments, clauses spanning lines or sharing a line, '+' signs) and read by solver.ParseCNF, explain.ParseCNF, solver.ParseOPB, maxsat.ParseWCNF; non-trivial = at least two constraints",
+		Require: []string{"kind.cnf", "kind.opb", "kind.wcnf", "op.parse", "op.eparse", "layout.0", "layout.1", "layout.2", "opb.objective", "text.cnf", "text.opb", "text.wcnf", "text.no-final-newline", "reader.0", "reader.1", "reader.2", "reader.3"},
 	})
 
 	register(&core.Check{
